@@ -15,7 +15,7 @@ import (
 func init() {
 	Register(&Property{
 		ID: "C13",
-		Explanation: "Decides the absence of request-controlled nil dereferences and the classification of malformed input: (R13.1) a forward taint analysis marks every pointer a client can make nil -- elements of []*T and *T fields decoded from JSON (null / absent key), message-typed and oneof fields of protobuf request messages read by field selection or through getters -- follows them through calls, closures, variadic packing, append and struct fields across the keto functions reachable from every API entry point, and requires every dereference (field access, load, method call on a nil pointer/interface, non-comma-ok type assertion) to be dominated by a nil test of that value or of another load of the same field; a sink inside a goroutine started on the request path is process-fatal; (R13.2) every parser of request text (strconv.Parse*, uuid.FromString, JSON decoding) on a request path returns or writes, on its error branch, an error whose herodot status is 4xx, and errors of the mapping/validation layer are never re-wrapped as 5xx by a handler; (R13.4) the page size that reaches LIMIT and the has-more test is normalised (0 = default, negative rejected); (R13.5) the recursions that run on request input (OPL type check, expression parser, check engine) carry a termination certificate, since a stack overflow kills the process and cannot be recovered. " +
+		Explanation: "Decides the absence of request-controlled nil dereferences and the classification of malformed input: (R13.1) a forward taint analysis marks every pointer a client can make nil -- elements of []*T and *T fields decoded from JSON (null / absent key), message-typed and oneof fields of protobuf request messages read by field selection or through getters -- follows them through calls, closures, variadic packing, append and struct fields across the keto functions reachable from every API entry point, and requires every dereference (field access, load, method call on a nil pointer/interface, non-comma-ok type assertion) to be dominated by a nil test of that value or of another load of the same field; a sink inside a goroutine started on the request path is process-fatal; (R13.2) every parser of request text (strconv.Parse*, uuid.FromString, JSON decoding) on a request path returns or writes, on its error branch, an error whose herodot status is 4xx, and errors of the mapping/validation layer are never re-wrapped as 5xx by a handler; (R13.3) each gRPC interceptor chain starts with the recovery interceptor and later interceptors are only appended, so a handler panic is answered instead of ending the process; (R13.4) the page size that reaches LIMIT and the has-more test is normalised (0 = default, negative rejected); (R13.5) the recursions that run on request input (OPL type check, expression parser, check engine) carry a termination certificate, since a stack overflow kills the process and cannot be recovered. " +
 			"Not decided: that state is unchanged on a 4xx (partly C04/C05), exhaustion, panics inside libraries.",
 		Assumptions: []string{
 			"protobuf-go never delivers nil elements in repeated fields, nor a nil message inside a set oneof wrapper, for messages decoded from the wire",
@@ -85,6 +85,7 @@ func runC13(c *Ctx) {
 	}
 
 	r132(c, entries)
+	r133(c)
 	// R13.4
 	r073(c)
 	for _, o := range r.Obls {
@@ -302,4 +303,120 @@ func escapeCodes(p *core.Program, site core.ErrSite) (codes []int64, bad []strin
 		})
 	}
 	return
+}
+
+// ---- R13.3 the gRPC servers recover from handler panics ---------------------------------------------
+
+// r133: every interceptor chain handed to grpc.Chain{Unary,Stream}Interceptor
+// starts with the recovery interceptor (element 0 of the slice literal the
+// chain grows from; later elements are only appended), so a panic in any later
+// interceptor or in a handler is answered, not propagated to the goroutine.
+func r133(c *Ctx) {
+	p, r := c.P, c.R
+	const recPkg = "github.com/grpc-ecosystem/go-grpc-middleware/v2/interceptors/recovery"
+	n := 0
+	var rootOK func(v ssa.Value, seen map[ssa.Value]bool) (bool, string)
+	rootOK = func(v ssa.Value, seen map[ssa.Value]bool) (bool, string) {
+		if seen[v] {
+			return true, ""
+		}
+		seen[v] = true
+		switch x := v.(type) {
+		case *ssa.Phi:
+			for _, e := range x.Edges {
+				if ok, why := rootOK(e, seen); !ok {
+					return false, why
+				}
+			}
+			return true, ""
+		case *ssa.Call:
+			if b, ok := x.Call.Value.(*ssa.Builtin); ok && b.Name() == "append" {
+				if isEmptySlice(x.Call.Args[0]) && len(x.Call.Args) > 1 {
+					// append(make([]T, 0, n), first, ...): the first appended element is element 0
+					return rootOK(x.Call.Args[1], seen)
+				}
+				return rootOK(x.Call.Args[0], seen)
+			}
+			if sc := x.Call.StaticCallee(); sc != nil && core.FuncPkg(sc) != nil && core.IsKeto(core.FuncPkg(sc)) {
+				ok, why := true, ""
+				found := false
+				for _, b := range sc.Blocks {
+					if ret, isRet := b.Instrs[len(b.Instrs)-1].(*ssa.Return); isRet && len(ret.Results) > 0 {
+						found = true
+						if o, w := rootOK(ret.Results[0], seen); !o {
+							ok, why = false, w
+						}
+					}
+				}
+				if !found {
+					return false, "callee " + core.FuncName(sc) + " has no return"
+				}
+				return ok, why
+			}
+			return false, "the chain comes from a call that is not analysed"
+		case *ssa.Slice:
+			al, ok := x.X.(*ssa.Alloc)
+			if !ok {
+				return rootOK(x.X, seen)
+			}
+			for _, ref := range *al.Referrers() {
+				ia, ok := ref.(*ssa.IndexAddr)
+				if !ok {
+					continue
+				}
+				if k, isK := core.IntConst(ia.Index); !isK || k != 0 {
+					continue
+				}
+				for _, r2 := range *ia.Referrers() {
+					if st, ok := r2.(*ssa.Store); ok {
+						if call, ok := st.Val.(*ssa.Call); ok {
+							if obj := core.CalleeObj(&call.Call); obj != nil && obj.Pkg() != nil && obj.Pkg().Path() == recPkg {
+								return true, ""
+							}
+						}
+						return false, "element 0 of the chain is not the recovery interceptor (" + p.Pos(st.Pos()) + ")"
+					}
+				}
+			}
+			return false, "the chain's slice literal has no element 0"
+		}
+		return false, fmt.Sprintf("the chain is built from %T, not from a slice literal grown by append", v)
+	}
+	for _, fn := range p.KetoFuncs("internal/driver") {
+		core.Instrs(fn, func(_ *ssa.BasicBlock, _ int, ins ssa.Instruction) {
+			call, ok := ins.(*ssa.Call)
+			if !ok {
+				return
+			}
+			obj := core.CalleeObj(&call.Call)
+			if obj == nil || obj.Pkg() == nil || obj.Pkg().Path() != "google.golang.org/grpc" || (obj.Name() != "ChainUnaryInterceptor" && obj.Name() != "ChainStreamInterceptor") {
+				return
+			}
+			n++
+			ok2, why := rootOK(call.Call.Args[0], map[ssa.Value]bool{})
+			r.Check(ok2, "R13.3", core.FuncName(fn), "grpc."+obj.Name(), p.Pos(call.Pos()),
+				"the interceptor chain starts with the recovery interceptor and is only appended to",
+				"a panic in a handler or a later interceptor is not recovered on this server: "+why)
+		})
+	}
+	if n < 2 {
+		r.Undecide("R13.3", "", "grpc.Chain*Interceptor call sites", "", fmt.Sprintf("%d found (floor 2)", n))
+	}
+}
+
+// isEmptySlice: make([]T, 0[, n]), a nil slice, or []T{}.
+func isEmptySlice(v ssa.Value) bool {
+	switch x := v.(type) {
+	case *ssa.MakeSlice:
+		k, ok := core.IntConst(x.Len)
+		return ok && k == 0
+	case *ssa.Const:
+		return x.IsNil()
+	case *ssa.Slice:
+		if _, ok := x.X.(*ssa.Alloc); ok && x.High != nil {
+			k, ok := core.IntConst(x.High)
+			return ok && k == 0
+		}
+	}
+	return false
 }
